@@ -342,3 +342,24 @@ M("c07-watch-vars-not-merged", "C07", "C07.MERGE", (SNAP, "            snapshot.
 M("c07-child-to-wrong-parent", "C07", "C07.CHILD", (VSPF, "            child_nodes = process_child_nodes(self, var_id.vid, node_value.value, node.depth)", "            child_nodes = process_child_nodes(self, var_id.name, node_value.value, node.depth)"))
 M("c07-name-of-other", "C07", "C07.ID", (VPF, "    variable_id = VariableId(var_id, node.name, modifiers, node.original_name)", "    variable_id = VariableId(var_id, node.original_name, modifiers, node.original_name)"))
 R("c07-local-rename", "C07", (VPF, "    identity_hash_id = str(id(node.value))\n    # guess the modifiers", "    value_ = node.value\n    identity_hash_id = str(id(value_))\n    # guess the modifiers"))
+
+# ------------------------------------------------------------------ C08
+PUSHI = "src/deep/push/__init__.py"
+GSVC = "src/deep/grpc/grpc_service.py"
+POLLF = "src/deep/poll/poll.py"
+M("c08-tuple-unhandled", "C08", "C08.TYPES", (GRPC, "    if isinstance(value, (list, tuple)):", "    if isinstance(value, list):"))
+M("c08-int-before-bool", "C08", "C08.TYPES", (GRPC, "    if isinstance(value, bool):\n        return AnyValue(bool_value=value)\n    if isinstance(value, str):\n        return AnyValue(string_value=value)\n    if isinstance(value, int):\n        return AnyValue(int_value=value)\n",
+                                                "    if isinstance(value, int):\n        return AnyValue(int_value=value)\n    if isinstance(value, bool):\n        return AnyValue(bool_value=value)\n    if isinstance(value, str):\n        return AnyValue(string_value=value)\n"))
+M("c08-float-as-int", "C08", "C08.TYPES", (GRPC, "        return AnyValue(double_value=value)", "        return AnyValue(int_value=value)"))
+M("c08-truncated-dropped", "C08", "C08.SCHEMA", (PUSHI, "children=[__convert_variable_id(c) for c in variable.children], truncated=variable.truncated)", "children=[__convert_variable_id(c) for c in variable.children])"))
+M("c08-method-file-swapped", "C08", "C08.SCHEMA", (PUSHI, "StackFrame(file_name=frame.file_name, short_path=frame.short_path, method_name=frame.method_name,", "StackFrame(file_name=frame.method_name, short_path=frame.short_path, method_name=frame.file_name,"))
+M("c08-error-as-good", "C08", "C08.SCHEMA", (PUSHI, "error_result=watch.error, source=", "error_result=watch.expression, source="))
+M("c08-app-frames-only", "C08", "C08.SCHEMA", (PUSHI, "frames=[__convert_frame(f) for f in snapshot.frames],", "frames=[__convert_frame(f) for f in snapshot.frames if f.app_frame],"))
+M("c08-log-dropped", "C08", "C08.SCHEMA", (PUSHI, "                                  snapshot.resource.attributes.items()],\n                        log_msg=snapshot.log_msg)", "                                  snapshot.resource.attributes.items()])"))
+M("c08-duration-is-ts", "C08", "C08.SCHEMA", (PUSHI, "duration_nanos=snapshot.duration_nanos,", "duration_nanos=snapshot.ts_nanos,"))
+M("c08-lookup-skips", "C08", "C08.SCHEMA", (PUSHI, "    for k, v in var_lookup.items():\n        converted[k] = __convert_variable(v)", "    for k, v in var_lookup.items():\n        if v.children or not v.truncated:\n            converted[k] = __convert_variable(v)"))
+M("c08-send-without-auth", "C08", "C08.AUTH", (PUSHS, "stub.send(converted, metadata=self.grpc.metadata())", "stub.send(converted)"))
+M("c08-poll-without-auth", "C08", "C08.AUTH", (POLLF, "response = stub.poll(request, metadata=self.grpc.metadata())", "response = stub.poll(request)"))
+M("c08-provider-ignored", "C08", "C08.AUTH", (GSVC, "        if provider is not None:\n            return provider.provide()\n        return []", "        if provider is None:\n            return provider.provide()\n        return []"))
+M("c08-watch-source-name", "C08", "C08.SOURCE", ("src/deep/api/tracepoint/eventsnapshot.py", "WATCH_SOURCE_CAPTURE = \"CAPTURE\"", "WATCH_SOURCE_CAPTURE = \"CAPTURED\""))
+R("c08-reorder-keywords", "C08", (PUSHI, "    return Variable(type=variable.type, value=variable.value, hash=variable.hash,", "    return Variable(hash=variable.hash, type=variable.type, value=variable.value,"))
